@@ -269,7 +269,7 @@ def check(ctx, run):
             "TestFailure::createDifferenceAtPosString": lambda *a_: (log["diff"].append(a_[-3:]), ("str", ""))[1],
             "TestFailure::createUserText": lambda *a_: ("str", "")}))
         ev.pass_object = True
-        ev.inline = {"SimpleString::ToLower", "SimpleString::isUpper"}
+        ev.inline = {"SimpleString::ToLower"}        # (its helper is a member of the same class or a file-static function: inlined by default)
         ev.run_blocks(f.entry, max_steps=4000)
         return log
     CASES = [("abc", "abd"), ("a\nb", "a\nc"), ("\x01x", "\x01y"), ("abc", "ab"), ("", "a"), ("x\ty\x7fz", "x\ty\x7fw"), ("same\n", "same\r"),
